@@ -35,19 +35,9 @@ func runC12(c *kit.Ctx) {
 
 	// ---- R1 ---------------------------------------------------------------
 	c.StartRule("R1", "nothing is sent before validation passed", 5)
-	var allOK *ssa.Alloc
-	for _, in := range sb.Blocks[0].Instrs {
-		if a, ok := in.(*ssa.Alloc); ok && a.Comment == "allOK" {
-			allOK = a
-		}
-	}
+	allOK := resultAlloc(sb, 1) // the named bool result
 	var loopHdr *ssa.BasicBlock
-	var batchParam *ssa.Parameter
-	for _, pa := range sb.Params {
-		if pa.Name() == "batch" {
-			batchParam = pa
-		}
-	}
+	batchParam := paramOfType(sb, "[]"+kit.Module+"/hrpc.Call", 0)
 	kit.Instrs(sb, func(in ssa.Instruction) {
 		if ph, ok := in.(*ssa.Phi); ok && ph.Comment == "rangeindex" && loopHdr == nil {
 			for _, r := range kit.Referrers(ph) {
@@ -198,8 +188,12 @@ func runC12(c *kit.Ctx) {
 		// next round's batch comes only from the retries list, which only grows by waitForCompletion's result
 		var batchPhi *ssa.Phi
 		kit.Instrs(sb, func(in ssa.Instruction) {
-			if ph, ok := in.(*ssa.Phi); ok && ph.Comment == "batch" {
-				batchPhi = ph
+			if ph, ok := in.(*ssa.Phi); ok && batchPhi == nil {
+				for _, e := range ph.Edges {
+					if e == ssa.Value(batchParam) {
+						batchPhi = ph
+					}
+				}
 			}
 		})
 		good := batchPhi != nil
@@ -214,7 +208,7 @@ func runC12(c *kit.Ctx) {
 					continue
 				}
 				a, ok := l.X.(*ssa.Alloc)
-				if !ok || a.Comment != "retries" {
+				if !ok {
 					good = false
 					continue
 				}
